@@ -25,6 +25,7 @@
 """
 from __future__ import annotations
 
+import copy
 import json
 from typing import Any, Dict, List, Optional
 
@@ -48,7 +49,8 @@ NONTRIVIAL_RULE = "restored an interpreter from a snapshot and compared it (and 
 BOUNDS = {
     "resume_step": "feature machine FM; every non-final legal configuration x history of B in {absent,b1,b2} x n in {0,1}; 1-2 save/restore cycles; continuation event and engine fixed per item (all 13 events x sync, 6 x async in quick); guard outcomes symbolic",
     "resume_run": "feature machine FM; public run of N events (first fixed per item), cut after each",
-    "context_exact": "context machine CX (actions that delete a declared key, add keys, store None / falsy values, mutate nested data, clear the context); sequences of 3 events over 7; one snapshot/restore cut at a symbolic position; both engines: restored context equals the uninterrupted run's context exactly (no key of the initial context comes back), re-snapshot reproduces the snapshot, later behaviour equal",
+    "terminal_resume": "machine TR cut in a terminal status: done (truthy / falsy output), done then stop(), error (failing service), error then stop(), stopped mid-run; both engines: status, output, error, configuration, context and the re-snapshot are reproduced",
+    "context_exact": "context machine CX (actions that delete a declared key, add keys, store None / falsy values, mutate nested data, clear the context); sequences of 3 events over 7; one snapshot/restore cut at a symbolic position; both engines: restored context equals the uninterrupted run's context exactly (no key of the initial context comes back), re-snapshot reproduces the snapshot, later behaviour equal; a snapshot DICT kept by the user is not changed by the later execution of the interpreter it came from",
     "actors_resume": "parent/child machine; child spawned (blocking in the sync engine) under id and systemId; cut before / after the child moved / after the parent completed; both engines",
     "snapshot_skeleton": "history skeletons CUR4/5/9/12/13/14: every legal configuration x publicly reachable history; both engines",
     "corrupt": "snapshot of a machine with history and an actor; corruption = (key index, replacement kind, string choice) symbolic over 9 keys x 13 replacements x 4 strings (empty, unknown id, two valid ids)",
@@ -616,6 +618,8 @@ def context_exact(eng: int, e0: int, e1: int, e2: int, cut: int) -> bool:
         for i, e in enumerate(evs):
             if i == k:
                 snap = common.native(it.get_snapshot)
+                held = common.native(ref.get_persisted_snapshot)          # a snapshot DICT the user keeps while ref goes on
+                held_copy = common.native(copy.deepcopy, held)
                 it = common.native(SyncInterpreter.from_snapshot, snap, m)
                 if fp(it) != fp(ref):
                     why = f"restored after {evs[:i]}: {fp(it)} vs uninterrupted {fp(ref)}"
@@ -628,6 +632,8 @@ def context_exact(eng: int, e0: int, e1: int, e2: int, cut: int) -> bool:
             if fp(it) != fp(ref):
                 why = f"after {evs[:i + 1]} (cut at {k}): {fp(it)} vs uninterrupted {fp(ref)}"
                 break
+        if why is None and k < len(evs) and held != held_copy:
+            why = f"a snapshot dict taken after {evs[:k]} changed while the interpreter it came from went on: context {held.get('context')!r} was {held_copy.get('context')!r}"
         ref.stop()
         it.stop()
     else:
@@ -664,8 +670,94 @@ def context_exact(eng: int, e0: int, e1: int, e2: int, cut: int) -> bool:
     return verdict(why is None, nontrivial=k < 3)
 
 
+def terminal_resume(eng: int, how: int) -> bool:
+    """
+    pre: 0 <= eng <= 1
+    pre: gate('terminal_resume', eng=eng, how=how)
+    post: _
+    """
+    from xstate_statemachine import Interpreter, SyncInterpreter, create_machine
+    from vf import env as _env
+    from vf.logic import make_logic
+
+    h = pick(how, 6)
+    m = fm._M.get("TR") if hasattr(fm, "_M") else None
+    if m is None:
+        def boom(i: Any, c: Any, e: Any) -> Any:
+            raise RuntimeError("service failed")
+
+        cfg = {"id": "tr", "initial": "a", "context": {"n": 1},
+               "states": {"a": {"on": {"FIN": "f", "FIN2": "g", "FAIL": "x", "GO": "b"}}, "b": {"on": {"GO": "a"}},
+                          "f": {"type": "final", "output": {"receipt": "R-42", "ok": True}},
+                          "g": {"type": "final", "output": 0},
+                          "x": {"invoke": {"src": "boom", "id": "s"}}}}
+        _env.install()
+        m = create_machine(cfg, logic=make_logic(services={"boom": boom}))
+        _env.pin_hashes(m)
+        if hasattr(fm, "_M"):
+            fm._M["TR"] = m
+    # how: 0 done (truthy output), 1 done then stop(), 2 done with a falsy output then stop(), 3 error, 4 error then stop(), 5 stopped mid-run
+    script = {0: (["FIN"], False), 1: (["FIN"], True), 2: (["FIN2"], True), 3: (["FAIL"], False), 4: (["FAIL"], True), 5: (["GO"], True)}[h]
+    evs, stop_first = script
+
+    def view(it: Any) -> Any:
+        # (an exception object cannot be rebuilt from JSON: the library restores a RestoredError carrying its text - presence is compared)
+        return (it.status, repr(it.output), getattr(it, "error", None) is not None,
+                sorted(n.id for n in it._active_state_nodes), repr(sorted(it.context.items())))
+
+    why: Optional[str] = None
+    if eng == 0:
+        it = SyncInterpreter(m)
+        it.start()
+        for e in evs:
+            try:
+                it.send(e)
+            except Exception:  # noqa: BLE001 - the failing service surfaces through status 'error'
+                pass
+        if stop_first:
+            it.stop()
+        snap = common.native(it.get_snapshot)
+        r = common.native(SyncInterpreter.from_snapshot, snap, m)
+        if view(r) != view(it):
+            why = f"restored {view(r)} vs original {view(it)}"
+        elif common.native(r.get_snapshot) != snap:
+            why = "re-snapshot of the restored interpreter differs from the snapshot it was built from"
+        if not stop_first:
+            it.stop()
+    else:
+        box: Dict[str, Any] = {}
+
+        async def go() -> None:
+            it2 = Interpreter(m)
+            await it2.start()
+            for e in evs:
+                await it2.send(e)
+                await it2._event_queue.join()
+            import asyncio
+
+            for _ in range(10):
+                await asyncio.sleep(0)
+            if stop_first:
+                await it2.stop()
+            snap = common.native(it2.get_snapshot)
+            r = common.native(Interpreter.from_snapshot, snap, m)
+            if view(r) != view(it2):
+                box["why"] = f"restored {view(r)} vs original {view(it2)}"
+            elif common.native(r.get_snapshot) != snap:
+                box["why"] = "re-snapshot of the restored interpreter differs from the snapshot it was built from"
+            if not stop_first:
+                await it2.stop()
+
+        common.drive(go())
+        why = box.get("why")
+    if why:
+        _note(f"{'sync' if eng == 0 else 'async'} how={h} ({evs}{' + stop()' if stop_first else ''}): {why}")
+    return verdict(why is None)
+
+
 OBLIGATIONS = {"snapshot_skeleton": snapshot_skeleton, "resume_step": resume_step, "resume_run": resume_run, "actors_resume": actors_resume,
-               "corrupt": corrupt, "corrupt_text": corrupt_text, "context_exact": context_exact}
+               "corrupt": corrupt, "corrupt_text": corrupt_text, "context_exact": context_exact,
+               "terminal_resume": terminal_resume}
 PROBES = {"corrupt": [{"key": 0, "kind": 0}, {"key": 2, "kind": 3}, {"key": 6, "kind": 3}, {"key": 7, "kind": 6}, {"key": 3, "kind": 7, "ssel": 1}],
           "actors_resume": [{"eng": 1, "tells": 1, "end": True}, {"eng": 0, "tells": 1}]}
 
@@ -683,6 +775,7 @@ def items(tier: str, seed: int) -> List[Dict[str, Any]]:
         out.append({"ob": "resume_run", "params": {"first": first, "N": 2 if quick else 3}, "timeout": 280 if quick else 1500,
                     "label": f"resume_run[first={first}]"})
     out.append({"ob": "actors_resume", "params": {}, "timeout": 200, "label": "actors_resume"})
+    out.append({"ob": "terminal_resume", "params": {}, "timeout": 200, "label": "terminal_resume"})
     for eng in (0, 1):
         for first in range(len(CX_EVENTS)):
             out.append({"ob": "context_exact", "params": {"eng": eng, "first": first}, "timeout": 300,
